@@ -27,6 +27,7 @@
 
 #include <cstddef>
 #include <cctype>
+#include <limits>
 #include <map>
 #include <stdint.h>
 #include <string>
@@ -250,6 +251,10 @@ void CmdOptions::optionDistance(Option& opt)
 
   if (!numbers.empty())
     start = numbers[0];
+
+  // START + DISTANCE must not wrap around
+  if (val > std::numeric_limits<uint64_t>::max() - start)
+    throw primesieve_error("invalid option '" + opt.str + "': START + DISTANCE must be < 2^64");
 
   numbers.push_back(start + val);
 }
